@@ -130,19 +130,25 @@ Proof.
   intros. apply cnt_ext. intros i Hi. unfold childb. rewrite upd_neq by lia. reflexivity.
 Qed.
 
-Definition opt_is (x : option nat) (e : nat) : bool :=
-  match x with Some y => Nat.eqb y e | None => false end.
+(* where the cause-chain walk stands:
+   MDec e : the counter of e is one too high (about to be decremented)
+   MRel e : e has just been decremented to 0 and is about to lose its cause attribute
+   MLog e : same, and <e>_complete has already been fired *)
+Inductive mark := MNone | MDec (e : nat) | MRel (e : nat) | MLog (e : nat).
+Definition is_dec (m : mark) (e : nat) : bool :=
+  match m with MDec y => Nat.eqb y e | _ => false end.
 
 (* ------------------------------------------------------------------ the invariant
-   x   : the event (if any) whose effects counter is one too high because the cause-chain walk
-         is about to decrement it;
+   m   : where the cause-chain walk stands (see [mark]); MNone between walks;
    cur : the event (if any) whose handlers are being run (dispatch or task step in progress) *)
-Record Inv (x cur : option nat) (s : st) : Prop := {
+Record Inv (m : mark) (cur : option nat) (s : st) : Prop := {
   i_cause_lt : forall d c, cause s d = Some c -> d < next s /\ c <= d;
   i_cause_live : forall d c, cause s d = Some c -> c <> d -> cause s c <> None;
   i_count : forall e, cause s e <> None ->
-      effects s e = Z.of_nat (selfc (phase s) e + cnt (childb (cause s) e) (next s) + (if opt_is x e then 1 else 0));
-  i_pos : forall e, cause s e <> None -> (1 <= effects s e)%Z;
+      effects s e = Z.of_nat (selfc (phase s) e + cnt (childb (cause s) e) (next s) + (if is_dec m e then 1 else 0));
+  i_pos : forall e, cause s e <> None -> (1 <= effects s e)%Z \/ m = MRel e \/ m = MLog e;
+  i_rel0 : forall e, m = MRel e \/ m = MLog e -> e < next s /\ effects s e = 0%Z;
+  i_logged : forall e, m = MLog e -> In (LFC e) (log s);
   i_gpar_lt : forall d h, gpar s d = Some h -> d < next s /\ h < d;
   i_gpar_phase : forall d h, gpar s d = Some h -> phase s h <> PQueued;
   i_trk_live : forall e, cause s e <> None -> trk s e = true;
@@ -161,7 +167,7 @@ Record Inv (x cur : option nat) (s : st) : Prop := {
   i_wait : forall e, waiting s e = tcount e (tasks s);
   i_active : forall e, phase s e = PActive -> cur = Some e \/ 0 < waiting s e;
   i_cur : forall e, cur = Some e -> e < next s /\ phase s e = PActive;
-  i_fc : forall e, In (LFC e) (log s) -> trk s e = true /\ cause s e = None;
+  i_fc : forall e, In (LFC e) (log s) -> trk s e = true /\ (cause s e = None \/ m = MLog e);
   i_fc_conv : forall e, trk s e = true -> cause s e = None -> ev_canc (spec s e) = false ->
       ev_compl (spec s e) = true -> In (LFC e) (log s);
   i_fc_once : forall e, fc_count e (log s) <= 1;
@@ -171,19 +177,20 @@ Record Inv (x cur : option nat) (s : st) : Prop := {
   i_oof : oof s = false
 }.
 
-Lemma inv_init : Inv None None init.
+Lemma inv_init : Inv MNone None init.
 Proof.
   constructor; simpl; intros; try discriminate; try contradiction; try congruence; try lia.
+  - destruct H; discriminate.
   - constructor.
   - destruct l2; discriminate.
 Qed.
 
 (* derived: once <e>_complete has been fired, the whole closure of e has finished *)
-Lemma closure_released : forall x cur s, Inv x cur s ->
+Lemma closure_released : forall m cur s, Inv m cur s ->
   forall e d, trk s e = true -> cause s e = None -> gdesc (gpar s) e d ->
   trk s d = true /\ cause s d = None.
 Proof.
-  intros x cur s I e d Ht Hc H. induction H as [|d h Hg _ IH]; [auto|].
+  intros m cur s I e d Ht Hc H. induction H as [|d h Hg _ IH]; [auto|].
   destruct IH as [Hth Hch].
   assert (Htd : trk s d = true) by (eapply i_trk_kids; eauto).
   split; [exact Htd|].
@@ -194,21 +201,22 @@ Proof.
     apply (i_cause_live _ _ _ I _ _ Ec Hne). exact Hch.
 Qed.
 
-Lemma closure_fin : forall x cur s, Inv x cur s ->
+Lemma closure_fin : forall cur s, Inv MNone cur s ->
   forall e d, In (LFC e) (log s) -> gdesc (gpar s) e d -> phase s d = PFin.
 Proof.
-  intros x cur s I e d Hfc Hd. destruct (i_fc _ _ _ I _ Hfc) as [Ht Hc].
+  intros cur s I e d Hfc Hd. destruct (i_fc _ _ _ I _ Hfc) as [Ht [Hc|Hc]]; [|discriminate].
   destruct (closure_released _ _ _ I _ _ Ht Hc Hd) as [Htd Hcd].
   eapply i_rel_fin; eauto.
 Qed.
 
 (* ------------------------------------------------------------------ logging a non-complete entry *)
-Lemma inv_add_log : forall x cur s y, Inv x cur s ->
+Lemma inv_add_log : forall cur s y, Inv MNone cur s ->
   (forall e, y <> LFC e) -> (forall d, hentry y d -> d < next s /\ phase s d <> PFin) ->
-  Inv x cur (add_log y s).
+  Inv MNone cur (add_log y s).
 Proof.
-  intros x cur s y I Hn Hh.
+  intros cur s y I Hn Hh.
   constructor; simpl; try (destruct I; assumption).
+  - intros; discriminate.
   - intros e [He|He]; [exfalso; eapply Hn; eauto|]. eapply i_fc; eauto.
   - intros. right. eapply i_fc_conv; eauto.
   - intros e. pose proof (i_fc_once _ _ _ I e). destruct y; simpl; auto. exfalso; eapply Hn; eauto.
@@ -219,7 +227,7 @@ Proof.
     + inversion Hl; subst z. destruct Hy as [<-|Hy].
       * apply Hh in Hd. destruct Hd as [_ Hp].
         assert (In (LFC e) (log s)) by (rewrite H1; apply in_or_app; right; left; reflexivity).
-        pose proof (closure_fin _ _ _ I _ _ H Hg). congruence.
+        pose proof (closure_fin _ _ I _ _ H Hg). congruence.
       * eapply i_order; eauto.
 Qed.
 
@@ -227,4 +235,828 @@ Lemma fire_add_log : forall h k sp y s, fire h k sp (add_log y s) = add_log y (f
 Proof.
   intros. destruct h as [h|]; unfold fire, link; simpl; [|reflexivity].
   destruct (upd (cause s) (next s) None h); reflexivity.
+Qed.
+
+(* ------------------------------------------------------------------ automation *)
+
+Ltac brk := repeat match goal with
+  | H : context [Nat.eqb ?a ?b] |- _ => destruct (Nat.eqb_spec a b)
+  | |- context [Nat.eqb ?a ?b] => destruct (Nat.eqb_spec a b)
+  end.
+
+Ltac sat I := repeat match goal with
+  | H : cause ?s ?e = Some ?c |- _ =>
+      lazymatch goal with _ : e < next s /\ c <= e |- _ => fail | _ => pose proof (i_cause_lt _ _ _ I _ _ H) end
+  | H : gpar ?s ?e = Some ?h |- _ =>
+      lazymatch goal with _ : e < next s /\ h < e |- _ => fail | _ => pose proof (i_gpar_lt _ _ _ I _ _ H) end
+  | H : trk ?s ?e = true |- _ =>
+      lazymatch goal with _ : e < next s |- _ => fail | _ => pose proof (i_trk_alloc _ _ _ I _ H) end
+  | H : In ?e (queue ?s) |- _ =>
+      lazymatch goal with _ : e < next s /\ phase s e = PQueued |- _ => fail | _ => pose proof (i_q _ _ _ I _ H) end
+  | H : In ?t (tasks ?s) |- _ =>
+      lazymatch goal with _ : tev t < next s /\ _ |- _ => fail | _ => pose proof (i_task _ _ _ I _ H) end
+  end.
+
+Ltac fin I := subst; simpl in *; try discriminate; try congruence;
+  try solve [match goal with H : _ = _ \/ _ = _ |- _ => destruct H; discriminate end];
+  sat I; try lia; try (split; lia);
+  try solve [ eauto using i_cause_live, i_pos, i_gpar_phase, i_trk_live, i_rel_fin, i_trk_kids,
+     i_cause_shape, i_self_cause, i_compl, i_disp_trk, i_qd, i_fc_conv, i_log_alloc
+    | eapply i_cause_live; eauto | eapply i_pos; eauto | eapply i_gpar_phase; eauto | eapply i_trk_live; eauto
+    | eapply i_rel_fin; eauto | eapply i_trk_kids; eauto | eapply i_cause_shape; eauto | eapply i_self_cause; eauto
+    | eapply i_compl; eauto | eapply i_disp_trk; eauto | eapply i_q; eauto | eapply i_qd; eauto | eapply i_task; eauto
+    | eapply i_wait; eauto | eapply i_active; eauto | eapply i_cur; eauto | eapply i_fc; eauto | eapply i_fc_conv; eauto
+    | eapply i_fc_once; eauto | eapply i_log_alloc; eauto | eapply i_oof; eauto | eapply i_q_nodup; eauto ].
+
+Lemma NoDup_snoc : forall A (l : list A) a, NoDup l -> ~ In a l -> NoDup (l ++ [a]).
+Proof.
+  induction l as [|b r IH]; simpl; intros a Hn Hi.
+  - constructor; [intros []|constructor].
+  - inversion Hn; subst. constructor.
+    + intro H. apply in_app_or in H. destruct H as [H|[H|[]]]; [contradiction|]. subst. apply Hi. left; reflexivity.
+    + apply IH; [assumption|]. intro. apply Hi. right; assumption.
+Qed.
+
+Lemma tcount_fresh : forall n ts, (forall t, In t ts -> tev t < n) -> tcount n ts = 0.
+Proof.
+  induction ts as [|a r IH]; simpl; intros H; [reflexivity|].
+  destruct (Nat.eqb_spec (tev a) n) as [E|E].
+  - specialize (H a (or_introl eq_refl)). lia.
+  - apply IH. intros. apply H. right; assumption.
+Qed.
+
+Lemma order_alloc : forall m cur s gp, Inv m cur s ->
+  forall l1 l2 e y d, log s = l2 ++ LFC e :: l1 -> In y l2 -> hentry y d ->
+  ~ gdesc (upd (gpar s) (next s) gp) e d.
+Proof.
+  intros m cur s gp I l1 l2 e y d H H0 H1 G.
+  assert (H2 : In y (log s)) by (rewrite H; apply in_or_app; left; assumption).
+  pose proof (i_log_alloc _ _ _ I y d H2 H1) as A.
+  eapply (i_order _ _ _ I); eauto.
+  refine (gdesc_stable (gpar s) _ (next s) (i_gpar_lt _ _ _ I) _ e d A G).
+  intros j Hj. rewrite upd_neq by lia. reflexivity.
+Qed.
+
+Ltac qgoals I :=
+  match goal with
+  | H : In _ (_ ++ [_]) |- _ /\ _ =>
+      apply in_app_or in H; destruct H as [H|[H|[]]]; [|congruence];
+      destruct (i_q _ _ _ I _ H); split; [lia|assumption]
+  | |- NoDup (_ ++ [_]) =>
+      apply NoDup_snoc; [apply (i_q_nodup _ _ _ I)|];
+      let H := fresh in intro H; apply (i_q _ _ _ I) in H; lia
+  | |- In _ (_ ++ [_]) =>
+      apply in_or_app;
+      first [ right; left; solve [auto | congruence] | left; apply (i_qd _ _ _ I); [lia|assumption] ]
+  | H : In ?t (tasks _) |- tev ?t < _ /\ _ => destruct (i_task _ _ _ I _ H); split; [lia|assumption]
+  | |- 0 = tcount _ _ =>
+      symmetry; subst; apply tcount_fresh;
+      let t := fresh in let Ht := fresh in intros t Ht; apply (i_task _ _ _ I _ Ht)
+  | H : In (LFC _) (log _) |- _ =>
+      let A := fresh in destruct (i_fc _ _ _ I _ H) as [A _]; apply (i_trk_alloc _ _ _ I) in A; lia
+  | H : In ?y (log _), H0 : hentry ?y ?d |- ?d < _ => pose proof (i_log_alloc _ _ _ I _ _ H H0); lia
+  | |- ~ gdesc _ _ _ => eapply (order_alloc _ _ _ _ I); eassumption
+  end.
+
+Lemma inv_alloc : forall m cur s k sp gp, Inv m cur s ->
+  (forall h, gp = Some h -> cur = Some h /\ cause s h = None) ->
+  Inv m cur (alloc k sp gp s).
+Proof.
+  intros m cur s k sp gp I Hgp.
+  assert (Hgp' : forall h, gp = Some h -> h < next s /\ phase s h = PActive /\ cause s h = None /\ trk s h = false).
+  { intros h E. destruct (Hgp h E) as [Hc Hca]. destruct (i_cur _ _ _ I h Hc) as [A B].
+    repeat split; auto. destruct (trk s h) eqn:T; auto.
+    pose proof (i_rel_fin _ _ _ I h T Hca). congruence. }
+  constructor; simpl.
+  3: { intros e H. assert (e <> next s) by (intro; subst; rewrite upd_eq in H; congruence).
+       rewrite upd_neq in H by assumption. rewrite upd_neq by assumption.
+       rewrite cnt_childb_upd by lia. unfold childb at 2. rewrite upd_eq, andb_false_r.
+       rewrite (i_count _ _ _ I e H). unfold selfc. rewrite upd_neq by assumption. lia. }
+  all: intros; unfold upd in *; brk; try solve [fin I].
+  all: try solve [ match goal with H : _ = Some _ |- _ => destruct (Hgp' _ H) as [? [? [? ?]]] end; fin I ].
+  all: try solve [ subst; destruct (Hgp' _ eq_refl) as [? [? [? ?]]]; fin I ].
+  all: try solve [ apply (i_compl _ _ _ I); [lia|assumption] | apply (i_disp_trk _ _ _ I); auto; lia].
+  all: try solve [qgoals I].
+  all: try solve [match goal with H : _ = MRel _ \/ _ |- _ =>
+                    destruct (i_rel0 _ _ _ I _ H); first [lia | split; [lia|assumption]] end].
+  all: try solve [eapply i_logged; eauto].
+  - destruct (i_cur _ _ _ I _ H). lia.
+  - destruct (i_cur _ _ _ I _ H). split; [lia|assumption].
+Qed.
+
+
+Lemma inv_fire_link : forall s h c k sp, Inv MNone (Some h) s -> cause s h = Some c ->
+  Inv MNone (Some h) (fire (Some h) k sp s).
+Proof.
+  intros s h c k sp I Ech. unfold fire, link.
+  destruct (i_cur _ _ _ I h eq_refl) as [Hh Hph].
+  assert (Hc : cause (alloc k sp (Some h) s) h = Some c) by (simpl; rewrite upd_neq by lia; exact Ech).
+  rewrite Hc. 
+  assert (Hth : trk s h = true) by (apply (i_trk_live _ _ _ I); congruence).
+  constructor; simpl.
+  3: { intros e H. rewrite !cnt_childb_upd by lia. unfold selfc, childb at 2. rewrite !upd_eq.
+       destruct (Nat.eq_dec e (next s)) as [->|Hne].
+       - rewrite upd_eq. rewrite (upd_neq _ _ h) by lia. rewrite upd_eq.
+         rewrite Nat.eqb_refl. simpl.
+         rewrite cnt_zero; [reflexivity|]. intros i Hi. unfold childb.
+         destruct (cause s i) as [c'|] eqn:E; [|apply andb_false_r].
+         apply (i_cause_lt _ _ _ I) in E. destruct (Nat.eqb_spec c' (next s)); [lia|apply andb_false_r].
+       - rewrite !upd_neq in H by assumption.
+         pose proof (i_count _ _ _ I e H) as Hc'. unfold selfc in Hc'. simpl in Hc'.
+         rewrite (upd_neq _ (phase s)) by assumption.
+         destruct (Nat.eqb_spec (next s) e); [congruence|]. simpl.
+         destruct (Nat.eq_dec e h) as [->|Hneh].
+         + rewrite upd_eq, Nat.eqb_refl. rewrite upd_neq by lia. rewrite Hc'. lia.
+         + rewrite !upd_neq by (assumption || lia). destruct (Nat.eqb_spec h e); [congruence|]. rewrite Hc'. lia. }
+  all: intros; unfold upd in *; brk; try solve [fin I].
+  all: try solve [ match goal with H : Some _ = Some _ |- _ => inversion H; subst end; fin I ].
+  all: try solve [ apply (i_compl _ _ _ I); [lia|assumption] | apply (i_disp_trk _ _ _ I); auto; lia].
+  all: try solve [qgoals I].
+  all: try solve [left; lia].
+  all: match goal with H : cause _ ?e <> None |- _ =>
+         destruct (i_pos _ _ _ I _ H) as [?|[?|?]]; try discriminate; left; subst; lia end.
+Qed.
+
+Lemma inv_fire : forall cur s k sp, Inv MNone cur s -> Inv MNone cur (fire cur k sp s).
+Proof.
+  intros cur s k sp I. destruct cur as [h|].
+  - destruct (cause s h) as [c|] eqn:E.
+    + eapply inv_fire_link; eauto.
+    + unfold fire, link. destruct (i_cur _ _ _ I h eq_refl) as [Hh _].
+      assert (Hc : cause (alloc k sp (Some h) s) h = None) by (simpl; rewrite upd_neq by lia; exact E).
+      rewrite Hc. apply inv_alloc; [assumption|]. intros h' Hh'. inversion Hh'; subst. auto.
+  - unfold fire. apply inv_alloc; [assumption|]. intros; discriminate.
+Qed.
+
+Lemma fire_next : forall h k sp s, next (fire h k sp s) = S (next s).
+Proof. intros. destruct h as [h|]; unfold fire, link; simpl; [|reflexivity]. destruct (upd (cause s) (next s) None h); reflexivity. Qed.
+Lemma fire_phase_new : forall h k sp s, phase (fire h k sp s) (next s) = PQueued.
+Proof. intros. destruct h as [h|]; unfold fire, link; simpl; [|apply upd_eq]. destruct (upd (cause s) (next s) None h); simpl; apply upd_eq. Qed.
+
+Lemma inv_fire_user : forall cur s sp, Inv MNone cur s -> Inv MNone cur (fire_user cur sp s).
+Proof.
+  intros cur s sp I. unfold fire_user. rewrite fire_add_log.
+  apply inv_add_log.
+  - apply inv_fire; assumption.
+  - intros; discriminate.
+  - intros d Hd. simpl in Hd. subst d. rewrite fire_next, fire_phase_new. split; [lia|discriminate].
+Qed.
+
+Lemma inv_fire_all : forall cur l s, Inv MNone cur s -> Inv MNone cur (fire_all cur l s).
+Proof.
+  induction l as [|sp r IH]; simpl; intros s I; [assumption|]. apply IH. apply inv_fire_user; assumption.
+Qed.
+
+Lemma inv_start : forall roots, Inv MNone None (start roots).
+Proof. intros. apply inv_fire_all. apply inv_init. Qed.
+
+(* ------------------------------------------------------------------ the cause-chain walk *)
+
+Definition dec_state (s : st) (e : nat) : st :=
+  set_cause_eff s (cause s) (upd (effects s) e (effects s e - 1)%Z) (trk s).
+
+Lemma inv_mdec_dead : forall e cur s, Inv (MDec e) cur s -> cause s e = None -> Inv MNone cur s.
+Proof.
+  intros e cur s I He. constructor; try (destruct I; assumption); intros.
+  - rewrite (i_count _ _ _ I _ H). simpl. destruct (Nat.eqb_spec e e0); [congruence|reflexivity].
+  - destruct (i_pos _ _ _ I _ H) as [?|[?|?]]; try discriminate. left; assumption.
+  - destruct H; discriminate.
+  - discriminate.
+  - destruct (i_fc _ _ _ I _ H) as [A [B|B]]; [auto|discriminate].
+Qed.
+
+Lemma inv_dec_stop : forall e cur s, Inv (MDec e) cur s -> cause s e <> None ->
+  (0 < effects s e - 1)%Z -> Inv MNone cur (dec_state s e).
+Proof.
+  intros e cur s I He Hn. unfold dec_state.
+  constructor; simpl; try (destruct I; assumption); intros.
+  - pose proof (i_count _ _ _ I _ H) as C. simpl in C. unfold upd.
+    destruct (Nat.eqb_spec e0 e).
+    + subst. rewrite Nat.eqb_refl in C. lia.
+    + destruct (Nat.eqb_spec e e0); [congruence|]. exact C.
+  - left. unfold upd. destruct (Nat.eqb_spec e0 e); [lia|].
+    destruct (i_pos _ _ _ I _ H) as [?|[?|?]]; try discriminate. assumption.
+  - destruct H; discriminate.
+  - discriminate.
+  - destruct (i_fc _ _ _ I _ H) as [A [B|B]]; [auto|discriminate].
+Qed.
+
+Lemma inv_dec_rel : forall e cur s, Inv (MDec e) cur s -> cause s e <> None ->
+  ~ (0 < effects s e - 1)%Z -> Inv (MRel e) cur (dec_state s e).
+Proof.
+  intros e cur s I He Hn. unfold dec_state.
+  pose proof (i_count _ _ _ I _ He) as Ce. simpl in Ce. rewrite Nat.eqb_refl in Ce.
+  constructor; simpl; try (destruct I; assumption); intros.
+  - pose proof (i_count _ _ _ I _ H) as C. simpl in C. unfold upd.
+    destruct (Nat.eqb_spec e0 e).
+    + subst. lia.
+    + destruct (Nat.eqb_spec e e0); [congruence|]. exact C.
+  - unfold upd. destruct (Nat.eqb_spec e0 e); [subst; auto|].
+    destruct (i_pos _ _ _ I _ H) as [?|[?|?]]; try discriminate. left; assumption.
+  - destruct H as [H|H]; inversion H; subst. rewrite upd_eq.
+    destruct (cause s e0) eqn:E; [|congruence]. apply (i_cause_lt _ _ _ I) in E. split; lia.
+  - discriminate.
+  - destruct (i_fc _ _ _ I _ H) as [A [B|B]]; [auto|discriminate].
+Qed.
+
+Lemma inv_log_fc : forall e cur s, Inv (MRel e) cur s -> cause s e <> None ->
+  Inv (MLog e) cur (add_log (LFC e) s).
+Proof.
+  intros e cur s I He.
+  assert (Hnot : ~ In (LFC e) (log s)).
+  { intro H. destruct (i_fc _ _ _ I _ H) as [_ [B|B]]; [congruence|discriminate]. }
+  constructor; simpl; try (destruct I; assumption); intros.
+  - destruct (i_pos _ _ _ I _ H) as [?|[?|?]]; try discriminate; auto.
+    inversion H0; subst; auto.
+  - destruct H as [H|H]; inversion H; subst. apply (i_rel0 _ _ _ I). left; reflexivity.
+  - inversion H; subst. left; reflexivity.
+  - destruct H as [H|H].
+    + inversion H; subst. split; [apply (i_trk_live _ _ _ I); assumption|right; reflexivity].
+    + destruct (i_fc _ _ _ I _ H) as [A [B|B]]; [auto|discriminate].
+  - right. eapply i_fc_conv; eauto.
+  - destruct (Nat.eqb_spec e e0).
+    + subst. rewrite (fc_count_notin _ _ Hnot). lia.
+    + simpl. apply (i_fc_once _ _ _ I).
+  - destruct H as [<-|H]; [contradiction|]. eapply i_log_alloc; eauto.
+  - destruct l2 as [|z l2]; simpl in H.
+    + contradiction.
+    + inversion H; subst z. destruct H0 as [<-|H0]; [contradiction|]. eapply i_order; eauto.
+Qed.
+
+Lemma inv_release : forall m e c cur s EF, Inv m cur s ->
+  (m = MRel e /\ compl s e = false) \/ m = MLog e ->
+  cause s e = Some c -> (forall j, j <> e -> EF j = effects s j) ->
+  Inv (if Nat.eqb c e then MNone else MDec c) cur
+      (set_cause_eff s (upd (cause s) e None) EF (trk s)).
+Proof.
+  intros m e c cur s EF I Hm Hc HEF.
+  assert (Hm' : m = MRel e \/ m = MLog e) by tauto.
+  destruct (i_rel0 _ _ _ I _ Hm') as [Hlt H0].
+  assert (He : cause s e <> None) by congruence.
+  pose proof (i_count _ _ _ I _ He) as Ce.
+  assert (Hd : is_dec m e = false) by (destruct Hm' as [->| ->]; reflexivity).
+  rewrite Hd, H0 in Ce.
+  assert (Hself : phase s e = PFin) by (unfold selfc in Ce; destruct (phase s e); try lia; reflexivity).
+  assert (Hcnt : cnt (childb (cause s) e) (next s) = 0) by lia.
+  assert (Hnokid : forall d c0, cause s d = Some c0 -> c0 = e -> d = e).
+  { intros d c0 Hd0 ->. destruct (Nat.eq_dec d e); [assumption|exfalso].
+    pose proof (i_cause_lt _ _ _ I _ _ Hd0) as [A _].
+    pose proof (cnt_zero_inv _ _ Hcnt d A) as B. unfold childb in B. rewrite Hd0, Nat.eqb_refl in B.
+    destruct (Nat.eqb_spec d e); [congruence|discriminate]. }
+  assert (Hnm : forall e', e' <> e -> is_dec m e' = false) by (intros; destruct Hm' as [->| ->]; reflexivity).
+  constructor; simpl; try (destruct I; assumption); intros.
+  - (* cause_lt *) unfold upd in H. destruct (Nat.eqb_spec d e); [discriminate|]. eapply i_cause_lt; eauto.
+  - (* cause_live *) unfold upd in *. destruct (Nat.eqb_spec d e); [discriminate|].
+    destruct (Nat.eqb_spec c0 e).
+    + subst. exfalso. apply n. eapply Hnokid; eauto.
+    + eapply i_cause_live; eauto.
+  - (* count *) unfold upd in H. destruct (Nat.eqb_spec e0 e) as [|Hne]; [congruence|].
+    rewrite HEF by assumption. rewrite (i_count _ _ _ I _ H). rewrite (Hnm _ Hne).
+    destruct (Nat.eq_dec e0 c) as [->|Hnc].
+    + destruct (Nat.eqb_spec c e); [congruence|]. simpl. rewrite Nat.eqb_refl.
+      rewrite <- (cnt_drop (childb (cause s) c) (childb (upd (cause s) e None) c) (next s) e); try lia.
+      * unfold childb. rewrite Hc, Nat.eqb_refl. destruct (Nat.eqb_spec e c); [congruence|reflexivity].
+      * unfold childb. rewrite upd_eq. apply andb_false_r.
+      * intros i Hi Hie. unfold childb. rewrite upd_neq by assumption. reflexivity.
+    + assert (Hdec : is_dec (if c =? e then MNone else MDec c) e0 = false).
+      { destruct (c =? e); simpl; [reflexivity|]. destruct (Nat.eqb_spec c e0); [congruence|reflexivity]. }
+      rewrite Hdec. f_equal. f_equal. f_equal. apply cnt_ext. intros i Hi. unfold childb, upd.
+      destruct (Nat.eqb_spec i e); [|reflexivity]. subst i. rewrite Hc.
+      destruct (Nat.eqb_spec c e0); [congruence|]. rewrite andb_false_r. reflexivity.
+  - (* pos *) unfold upd in H. destruct (Nat.eqb_spec e0 e) as [|Hne]; [congruence|]. left.
+    rewrite HEF by assumption.
+    destruct (i_pos _ _ _ I _ H) as [?|[?|?]]; [assumption| |]; subst m; destruct Hm' as [X|X]; inversion X; congruence.
+  - (* rel0 *) destruct (c =? e); destruct H; discriminate.
+  - (* logged *) destruct (c =? e); discriminate.
+  - (* trk_live *) unfold upd in H. destruct (Nat.eqb_spec e0 e); [congruence|]. eapply i_trk_live; eauto.
+  - (* rel_fin *) unfold upd in H1. destruct (Nat.eqb_spec e0 e); [subst; assumption|]. eapply i_rel_fin; eauto.
+  - (* cause_shape *) unfold upd in H. destruct (Nat.eqb_spec d e); [discriminate|]. eapply i_cause_shape; eauto.
+  - (* self_cause *) unfold upd in H. destruct (Nat.eqb_spec d e); [discriminate|]. eapply i_self_cause; eauto.
+  - (* fc *) destruct (i_fc _ _ _ I _ H) as [A B]. split; [assumption|]. left. unfold upd.
+    destruct (Nat.eqb_spec e0 e); [reflexivity|]. destruct B as [B|B]; [assumption|].
+    subst m. destruct Hm' as [X|X]; inversion X; congruence.
+  - (* fc_conv *) unfold upd in H1. destruct (Nat.eqb_spec e0 e); [|eapply i_fc_conv; eauto].
+    subst e0. destruct Hm as [[_ Hcf]| ->].
+    + rewrite (i_compl _ _ _ I _ Hlt H2) in Hcf. congruence.
+    + apply (i_logged _ _ _ I). reflexivity.
+Qed.
+
+
+Lemma walk_dead : forall f e s, cause s e = None -> walk (S f) e s = s.
+Proof. intros. simpl. rewrite H. reflexivity. Qed.
+
+Lemma inv_walk : forall fuel e cur s, e + 2 <= fuel -> Inv (MDec e) cur s ->
+  Inv MNone cur (walk fuel e s).
+Proof.
+  induction fuel as [|f IH]; intros e cur s Hf I; [lia|].
+  simpl. destruct (cause s e) as [c|] eqn:Ec; [|eapply inv_mdec_dead; eauto].
+  assert (He : cause s e <> None) by congruence.
+  fold (dec_state s e).
+  destruct (0 <? effects s e - 1)%Z eqn:En.
+  - apply inv_dec_stop; auto. apply Z.ltb_lt; assumption.
+  - assert (I1 : Inv (MRel e) cur (dec_state s e)).
+    { apply inv_dec_rel; auto. intro X. apply Z.ltb_lt in X. congruence. }
+    assert (Hle : c <= e) by (apply (i_cause_lt _ _ _ I) in Ec; lia).
+    assert (Hlt : e < next s) by (apply (i_cause_lt _ _ _ I) in Ec; lia).
+    set (s1 := dec_state s e) in *.
+    assert (Hc1 : cause s1 e = Some c) by exact Ec.
+    match goal with |- Inv _ _ (walk f c ?t) => set (s3 := t) end.
+    assert (I3 : Inv (if Nat.eqb c e then MNone else MDec c) cur s3).
+    { subst s3. change (compl s e) with (compl s1 e). destruct (compl s1 e) eqn:Eco.
+      - unfold fire_complete.
+        assert (I2 : Inv (MLog e) cur (alloc (KCompl e) dummy None (add_log (LFC e) s1))).
+        { apply inv_alloc; [apply inv_log_fc; [assumption|congruence]|]. intros; discriminate. }
+        apply (inv_release (MLog e) e c); auto.
+        + simpl. rewrite upd_neq by (simpl; lia). exact Ec.
+        + intros j Hj. rewrite upd_neq by assumption. reflexivity.
+      - apply (inv_release (MRel e) e c); auto.
+        intros j Hj. rewrite upd_neq by assumption. reflexivity. }
+    destruct (Nat.eqb_spec c e) as [->|Hne].
+    + destruct f as [|f']; [lia|]. rewrite walk_dead; [assumption|].
+      subst s3. simpl. apply upd_eq.
+    + apply IH; [lia|assumption].
+Qed.
+
+(* ------------------------------------------------------------------ dispatcher and task steps *)
+
+(* facts about the head of the queue *)
+Lemma queue_head : forall m cur s e q, Inv m cur s -> queue s = e :: q ->
+  e < next s /\ phase s e = PQueued /\ ~ In e q /\ NoDup q /\
+  (forall d h, gpar s d = Some h -> h <> e) /\
+  (forall d c, cause s d = Some c -> c <> d -> c <> e) /\
+  (forall t, In t (tasks s) -> tev t <> e) /\ cur <> Some e.
+Proof.
+  intros m cur s e q I Hq.
+  assert (Hin : In e (queue s)) by (rewrite Hq; left; reflexivity).
+  destruct (i_q _ _ _ I _ Hin) as [A B].
+  pose proof (i_q_nodup _ _ _ I) as N. rewrite Hq in N. inversion N; subst.
+  repeat split; auto.
+  - intros d h G ->. apply (i_gpar_phase _ _ _ I) in G. congruence.
+  - intros d c G Hne ->. apply (i_cause_shape _ _ _ I) in G; [|assumption]. apply (i_gpar_phase _ _ _ I) in G. congruence.
+  - intros t Ht E. destruct (i_task _ _ _ I _ Ht) as [_ P]. rewrite E in P. congruence.
+  - intros ->. destruct (i_cur _ _ _ I _ eq_refl) as [_ P]. congruence.
+Qed.
+
+Lemma inv_pop_active : forall s e q, Inv MNone None s -> queue s = e :: q ->
+  ev_canc (spec s e) = false -> compl s e = false ->
+  Inv MNone (Some e) (set_phase (set_queue s q) (upd (phase s) e PActive)).
+Proof.
+  intros s e q I Hq Hx Hco.
+  destruct (queue_head _ _ _ _ _ I Hq) as [Hlt [Hph [Hnin [Hnd [Hg [Hc [Ht Hcur]]]]]]].
+  constructor; simpl; try (destruct I; assumption); intros.
+  - rewrite (i_count _ _ _ I _ H). unfold selfc, upd. destruct (Nat.eqb_spec e0 e); [subst; rewrite Hph|]; reflexivity.
+  - unfold upd. destruct (Nat.eqb_spec h e); [discriminate|]. eapply i_gpar_phase; eauto.
+  - unfold upd. destruct (Nat.eqb_spec e0 e); [subst|eapply i_rel_fin; eauto].
+    pose proof (i_rel_fin _ _ _ I _ H H0). congruence.
+  - unfold upd in H0. destruct (Nat.eqb_spec e0 e); [subst|eapply i_disp_trk; eauto].
+    rewrite (i_compl _ _ _ I _ Hlt Hx) in Hco. congruence.
+  - assert (e0 <> e) by (intros ->; contradiction). rewrite upd_neq by assumption.
+    apply (i_q _ _ _ I). rewrite Hq. right; assumption.
+  - unfold upd in H0. destruct (Nat.eqb_spec e0 e); [discriminate|].
+    pose proof (i_qd _ _ _ I _ H H0) as X. rewrite Hq in X. destruct X; [congruence|assumption].
+  - rewrite upd_neq by (apply Ht; assumption). eapply i_task; eauto.
+  - unfold upd in H. destruct (Nat.eqb_spec e0 e); [subst; left; reflexivity|].
+    destruct (i_active _ _ _ I _ H); [discriminate|right; assumption].
+  - inversion H; subst. rewrite upd_eq. auto.
+Qed.
+
+Lemma inv_pop_nested : forall s e q c, Inv MNone None s -> queue s = e :: q ->
+  cause s e = Some c ->
+  Inv MNone (Some e) (set_cause_eff (set_phase (set_queue s q) (upd (phase s) e PActive))
+                         (cause s) (upd (effects s) e 1%Z) (trk s)).
+Proof.
+  intros s e q c I Hq Hca.
+  destruct (queue_head _ _ _ _ _ I Hq) as [Hlt [Hph [Hnin [Hnd [Hg [Hc [Ht Hcur]]]]]]].
+  assert (Hcnt : cnt (childb (cause s) e) (next s) = 0).
+  { apply cnt_zero. intros i Hi. unfold childb. destruct (Nat.eqb_spec i e); [reflexivity|]. simpl.
+    destruct (cause s i) as [c'|] eqn:E; [|reflexivity]. destruct (Nat.eqb_spec c' e); [|reflexivity].
+    subst c'. exfalso. eapply Hc; eauto. }
+  constructor; simpl; try (destruct I; assumption); intros.
+  - unfold selfc, upd. destruct (Nat.eqb_spec e0 e).
+    + subst. rewrite Hcnt. reflexivity.
+    + rewrite (i_count _ _ _ I _ H). reflexivity.
+  - left. unfold upd. destruct (Nat.eqb_spec e0 e); [lia|].
+    destruct (i_pos _ _ _ I _ H) as [?|[?|?]]; try discriminate; assumption.
+  - destruct H; discriminate.
+  - unfold upd. destruct (Nat.eqb_spec h e); [discriminate|]. eapply i_gpar_phase; eauto.
+  - unfold upd. destruct (Nat.eqb_spec e0 e); [subst|eapply i_rel_fin; eauto]. congruence.
+  - unfold upd in H0. destruct (Nat.eqb_spec e0 e); [subst|eapply i_disp_trk; eauto].
+    apply (i_trk_live _ _ _ I). congruence.
+  - assert (e0 <> e) by (intros ->; contradiction). rewrite upd_neq by assumption.
+    apply (i_q _ _ _ I). rewrite Hq. right; assumption.
+  - unfold upd in H0. destruct (Nat.eqb_spec e0 e); [discriminate|].
+    pose proof (i_qd _ _ _ I _ H H0) as X. rewrite Hq in X. destruct X; [congruence|assumption].
+  - rewrite upd_neq by (apply Ht; assumption). eapply i_task; eauto.
+  - unfold upd in H. destruct (Nat.eqb_spec e0 e); [subst; left; reflexivity|].
+    destruct (i_active _ _ _ I _ H); [discriminate|right; assumption].
+  - inversion H; subst. rewrite upd_eq. auto.
+Qed.
+
+Lemma inv_pop_root : forall s e q, Inv MNone None s -> queue s = e :: q ->
+  cause s e = None -> 
+  Inv MNone (Some e) (set_cause_eff (set_phase (set_queue s q) (upd (phase s) e PActive))
+                         (upd (cause s) e (Some e)) (upd (effects s) e 1%Z) (upd (trk s) e true)).
+Proof.
+  intros s e q I Hq Hca.
+  destruct (queue_head _ _ _ _ _ I Hq) as [Hlt [Hph [Hnin [Hnd [Hg [Hc [Ht Hcur]]]]]]].
+  assert (Htr : trk s e = false).
+  { destruct (trk s e) eqn:T; [|reflexivity]. pose proof (i_rel_fin _ _ _ I _ T Hca). congruence. }
+  constructor; simpl; try (destruct I; assumption); intros.
+  - (* cause_lt *) unfold upd in H. destruct (Nat.eqb_spec d e); [inversion H; subst; lia|]. eapply i_cause_lt; eauto.
+  - (* cause_live *) unfold upd in *. destruct (Nat.eqb_spec d e); [inversion H; subst; congruence|].
+    destruct (Nat.eqb_spec c e); [discriminate|]. eapply i_cause_live; eauto.
+  - (* count *) unfold selfc, upd at 1 2. destruct (Nat.eqb_spec e0 e).
+    + subst. rewrite cnt_zero; [reflexivity|]. intros i Hi. unfold childb, upd.
+      destruct (Nat.eqb_spec i e); [reflexivity|]. simpl.
+      destruct (cause s i) as [c'|] eqn:E; [|reflexivity]. destruct (Nat.eqb_spec c' e); [|reflexivity].
+      subst c'. exfalso. eapply Hc; eauto.
+    + rewrite upd_neq in H by assumption. rewrite (i_count _ _ _ I _ H). simpl.
+      f_equal. f_equal. f_equal. apply cnt_ext. intros i Hi. unfold childb, upd.
+      destruct (Nat.eqb_spec i e); [|reflexivity]. subst i. rewrite Hca.
+      destruct (Nat.eqb_spec e e0); [congruence|]. rewrite andb_false_r. reflexivity.
+  - (* pos *) left. unfold upd in *. destruct (Nat.eqb_spec e0 e); [lia|].
+    destruct (i_pos _ _ _ I _ H) as [?|[?|?]]; try discriminate; assumption.
+  - destruct H; discriminate.
+  - unfold upd. destruct (Nat.eqb_spec h e); [discriminate|]. eapply i_gpar_phase; eauto.
+  - (* trk_live *) unfold upd in *. destruct (Nat.eqb_spec e0 e); [reflexivity|]. eapply i_trk_live; eauto.
+  - (* trk_alloc *) unfold upd in H. destruct (Nat.eqb_spec e0 e); [subst; assumption|]. eapply i_trk_alloc; eauto.
+  - (* rel_fin *) unfold upd in *. destruct (Nat.eqb_spec e0 e); [discriminate|]. eapply i_rel_fin; eauto.
+  - (* trk_kids *) unfold upd in *. destruct (Nat.eqb_spec h e); [subst; exfalso; eapply Hg; eauto|].
+    destruct (Nat.eqb_spec d e); [reflexivity|]. eapply i_trk_kids; eauto.
+  - (* cause_shape *) unfold upd in H. destruct (Nat.eqb_spec d e); [inversion H; subst; congruence|]. eapply i_cause_shape; eauto.
+  - (* self_cause *) assert (h <> e) by (eapply Hg; eauto). rewrite upd_neq by assumption.
+    unfold upd in H. destruct (Nat.eqb_spec d e).
+    + subst d. destruct (trk s h) eqn:T; [|reflexivity]. pose proof (i_trk_kids _ _ _ I _ _ H0 T). congruence.
+    + eapply i_self_cause; eauto.
+  - (* disp_trk *) unfold upd in *. destruct (Nat.eqb_spec e0 e); [reflexivity|]. eapply i_disp_trk; eauto.
+  - assert (e0 <> e) by (intros ->; contradiction). rewrite upd_neq by assumption.
+    apply (i_q _ _ _ I). rewrite Hq. right; assumption.
+  - unfold upd in H0. destruct (Nat.eqb_spec e0 e); [discriminate|].
+    pose proof (i_qd _ _ _ I _ H H0) as X. rewrite Hq in X. destruct X; [congruence|assumption].
+  - rewrite upd_neq by (apply Ht; assumption). eapply i_task; eauto.
+  - unfold upd in H. destruct (Nat.eqb_spec e0 e); [subst; left; reflexivity|].
+    destruct (i_active _ _ _ I _ H); [discriminate|right; assumption].
+  - inversion H; subst. rewrite upd_eq. auto.
+  - (* fc *) destruct (i_fc _ _ _ I _ H) as [A [B|B]]; [|discriminate].
+    assert (e0 <> e) by (intros ->; congruence). rewrite !upd_neq by assumption. auto.
+  - (* fc_conv *) unfold upd in *. destruct (Nat.eqb_spec e0 e); [discriminate|]. eapply i_fc_conv; eauto.
+Qed.
+
+Lemma inv_pop_cancel : forall s e q, Inv MNone None s -> queue s = e :: q ->
+  ev_canc (spec s e) = true ->
+  Inv (MDec e) None (set_phase (set_compl (set_queue s q) (upd (compl s) e false)) (upd (phase s) e PFin)).
+Proof.
+  intros s e q I Hq Hx.
+  destruct (queue_head _ _ _ _ _ I Hq) as [Hlt [Hph [Hnin [Hnd [Hg [Hc [Ht Hcur]]]]]]].
+  constructor; simpl; try (destruct I; assumption); intros.
+  - rewrite (i_count _ _ _ I _ H). unfold selfc, upd. destruct (Nat.eqb_spec e0 e).
+    + subst. rewrite Hph, Nat.eqb_refl. simpl. lia.
+    + destruct (Nat.eqb_spec e e0); [congruence|]. reflexivity.
+  - destruct (i_pos _ _ _ I _ H) as [?|[?|?]]; try discriminate. left; assumption.
+  - destruct H; discriminate.
+  - discriminate.
+  - unfold upd. destruct (Nat.eqb_spec h e); [discriminate|]. eapply i_gpar_phase; eauto.
+  - unfold upd. destruct (Nat.eqb_spec e0 e); [reflexivity|eapply i_rel_fin; eauto].
+  - unfold upd. destruct (Nat.eqb_spec e0 e); [subst; congruence|]. eapply i_compl; eauto.
+  - unfold upd in H0. destruct (Nat.eqb_spec e0 e); [subst; congruence|eapply i_disp_trk; eauto].
+  - assert (e0 <> e) by (intros ->; contradiction). rewrite upd_neq by assumption.
+    apply (i_q _ _ _ I). rewrite Hq. right; assumption.
+  - unfold upd in H0. destruct (Nat.eqb_spec e0 e); [discriminate|].
+    pose proof (i_qd _ _ _ I _ H H0) as X. rewrite Hq in X. destruct X; [congruence|assumption].
+  - rewrite upd_neq by (apply Ht; assumption). eapply i_task; eauto.
+  - unfold upd in H. destruct (Nat.eqb_spec e0 e); [discriminate|].
+    destruct (i_active _ _ _ I _ H); [discriminate|right; assumption].
+  - discriminate.
+  - destruct (i_fc _ _ _ I _ H) as [A [B|B]]; [auto|discriminate].
+Qed.
+
+Lemma inv_active_fin : forall s e, Inv MNone (Some e) s -> waiting s e = 0 ->
+  Inv (MDec e) None (set_phase s (upd (phase s) e PFin)).
+Proof.
+  intros s e I Hw.
+  destruct (i_cur _ _ _ I _ eq_refl) as [Hlt Hph].
+  constructor; simpl; try (destruct I; assumption); intros.
+  - rewrite (i_count _ _ _ I _ H). unfold selfc, upd. destruct (Nat.eqb_spec e0 e).
+    + subst. rewrite Hph, Nat.eqb_refl. simpl. lia.
+    + destruct (Nat.eqb_spec e e0); [congruence|]. reflexivity.
+  - destruct (i_pos _ _ _ I _ H) as [?|[?|?]]; try discriminate. left; assumption.
+  - destruct H; discriminate.
+  - discriminate.
+  - unfold upd. destruct (Nat.eqb_spec h e); [discriminate|]. eapply i_gpar_phase; eauto.
+  - unfold upd. destruct (Nat.eqb_spec e0 e); [reflexivity|eapply i_rel_fin; eauto].
+  - unfold upd in H0. destruct (Nat.eqb_spec e0 e); [subst|eapply i_disp_trk; eauto].
+    apply (i_disp_trk _ _ _ I); auto. congruence.
+  - destruct (i_q _ _ _ I _ H) as [A B]. split; [assumption|].
+    rewrite upd_neq; [assumption|]. intros ->. congruence.
+  - unfold upd in H0. destruct (Nat.eqb_spec e0 e); [discriminate|]. eapply i_qd; eauto.
+  - destruct (i_task _ _ _ I _ H) as [A B]. split; [assumption|]. rewrite upd_neq; [assumption|].
+    apply (tcount_zero e (tasks s)); [rewrite <- (i_wait _ _ _ I); assumption|assumption].
+  - unfold upd in H. destruct (Nat.eqb_spec e0 e); [discriminate|].
+    destruct (i_active _ _ _ I _ H) as [X|X]; [inversion X; congruence|right; assumption].
+  - discriminate.
+  - destruct (i_fc _ _ _ I _ H) as [A [B|B]]; [auto|discriminate].
+Qed.
+
+Lemma inv_finish : forall s e, Inv MNone (Some e) s -> waiting s e = 0 -> Inv MNone None (finish e s).
+Proof. intros. unfold finish. apply inv_walk; [lia|]. apply inv_active_fin; assumption. Qed.
+
+(* cur can be dropped when the current event still has pending generator handlers *)
+Lemma inv_uncur : forall s e, Inv MNone (Some e) s -> 0 < waiting s e -> Inv MNone None s.
+Proof.
+  intros s e I Hw. constructor; try (destruct I; assumption); intros.
+  - destruct (i_active _ _ _ I _ H) as [X|X]; [inversion X; subst; right; assumption|right; assumption].
+  - discriminate.
+Qed.
+
+Lemma inv_gate : forall s e, Inv MNone (Some e) s -> Inv MNone None (gate e s).
+Proof.
+  intros s e I. unfold gate. destruct (Nat.eqb_spec (waiting s e) 0).
+  - apply inv_finish; assumption.
+  - eapply inv_uncur; eauto. lia.
+Qed.
+
+(* cur can be set to an event that has a pending task *)
+Lemma inv_setcur : forall s e, Inv MNone None s -> e < next s -> phase s e = PActive -> Inv MNone (Some e) s.
+Proof.
+  intros s e I Hlt Hph. constructor; try (destruct I; assumption); intros.
+  - destruct (i_active _ _ _ I _ H) as [X|X]; [discriminate|right; assumption].
+  - inversion H; subst. auto.
+Qed.
+
+Lemma inv_add_task : forall s e i steps, Inv MNone (Some e) s -> Inv MNone (Some e) (add_task e i steps s).
+Proof.
+  intros s e i steps I. destruct (i_cur _ _ _ I _ eq_refl) as [Hlt Hph]. unfold add_task.
+  constructor; simpl; try (destruct I; assumption); intros.
+  - apply in_app_or in H. destruct H as [H|[<-|[]]]; [eapply i_task; eauto|simpl; auto].
+  - rewrite tcount_app. simpl. unfold upd. destruct (Nat.eqb_spec e0 e).
+    + subst. rewrite Nat.eqb_refl, (i_wait _ _ _ I e). lia.
+    + destruct (Nat.eqb_spec e e0); [congruence|]. rewrite (i_wait _ _ _ I e0). lia.
+  - unfold upd. destruct (Nat.eqb_spec e0 e); [right; lia|eapply i_active; eauto].
+Qed.
+
+Lemma fire_tasks : forall h k sp s, tasks (fire h k sp s) = tasks s /\ waiting (fire h k sp s) = upd (waiting s) (next s) 0.
+Proof.
+  intros. destruct h as [h|]; unfold fire, link; simpl; [|auto].
+  destruct (upd (cause s) (next s) None h); simpl; auto.
+Qed.
+
+Lemma fire_all_tasks : forall h l s, Inv MNone h s ->
+  tasks (fire_all h l s) = tasks s /\ (forall e, e < next s -> waiting (fire_all h l s) e = waiting s e)
+  /\ next s <= next (fire_all h l s).
+Proof.
+  induction l as [|sp r IH]; simpl; intros s I; [auto|].
+  destruct (IH (fire_user h sp s) (inv_fire_user _ _ _ I)) as [A [B C]].
+  unfold fire_user in *. rewrite fire_add_log in *. simpl in *.
+  destruct (fire_tasks h KUser sp s) as [T W]. rewrite fire_next in *.
+  rewrite A, T. repeat split; auto; [|lia].
+  intros e He. rewrite B by lia. rewrite W. apply upd_neq. lia.
+Qed.
+
+Lemma inv_run_handlers : forall hs e i s, Inv MNone (Some e) s -> Inv MNone (Some e) (run_handlers e i hs s).
+Proof.
+  induction hs as [|h r IH]; intros e i s I; simpl; [assumption|].
+  destruct (i_cur _ _ _ I _ eq_refl) as [Hlt Hph].
+  destruct h as [kids stop raise|steps].
+  - assert (I1 : Inv MNone (Some e) (fire_all (Some e) kids (add_log (LH e i) s))).
+    { apply inv_fire_all. apply inv_add_log; [assumption|intros; discriminate|].
+      intros d Hd. simpl in Hd. subst d. split; [assumption|congruence]. }
+    assert (I2 : Inv MNone (Some e) (if raise then fire (Some e) (KExc e) dummy (fire_all (Some e) kids (add_log (LH e i) s))
+                                     else fire_all (Some e) kids (add_log (LH e i) s))).
+    { destruct raise; [apply inv_fire|]; assumption. }
+    destruct stop; [assumption|]. apply IH; assumption.
+  - apply IH. apply inv_add_task; assumption.
+Qed.
+
+Lemma inv_dispatch : forall s e q, Inv MNone None s -> queue s = e :: q ->
+  Inv MNone None (dispatch e (set_queue s q)).
+Proof.
+  intros s e q I Hq. unfold dispatch. cbv zeta.
+  change (spec (set_queue s q) e) with (spec s e).
+  destruct (ev_canc (spec s e)) eqn:Hx.
+  - apply inv_walk; [lia|]. exact (inv_pop_cancel s e q I Hq Hx).
+  - match goal with |- Inv _ _ (gate e (match kind ?t e with _ => _ end)) => set (s1 := t) end.
+    assert (I1 : Inv MNone (Some e) s1).
+    { subst s1. change (compl (set_phase (set_queue s q) (upd (phase (set_queue s q)) e PActive)) e) with (compl s e).
+      change (cause (set_phase (set_queue s q) (upd (phase (set_queue s q)) e PActive)) e) with (cause s e).
+      destruct (compl s e) eqn:Hco.
+      - destruct (cause s e) as [c|] eqn:Hca.
+        + exact (inv_pop_nested s e q c I Hq Hca).
+        + exact (inv_pop_root s e q I Hq Hca).
+      - exact (inv_pop_active s e q I Hq Hx Hco). }
+    apply inv_gate. destruct (kind s1 e).
+    + apply inv_run_handlers; assumption.
+    + apply inv_add_log; [assumption|intros; discriminate|intros d []].
+    + assumption.
+Qed.
+
+Lemma inv_task_stop : forall s e p t, Inv MNone (Some e) s -> nth_error (tasks s) p = Some t -> tev t = e ->
+  Inv MNone None (task_stop p e s).
+Proof.
+  intros s e p t I Hn He. unfold task_stop.
+  change (Inv MNone None (gate e (set_tasks s (upd (waiting s) e (pred (waiting s e))) (remove_nth p (tasks s))))).
+  apply inv_gate.
+  pose proof (tcount_remove e _ _ _ Hn) as Hr. rewrite He, Nat.eqb_refl in Hr.
+  constructor; simpl; try (destruct I; assumption); intros.
+  - apply in_remove_nth in H. eapply i_task; eauto.
+  - unfold upd. destruct (Nat.eqb_spec e0 e).
+    + subst e0. rewrite (i_wait _ _ _ I e). lia.
+    + rewrite (i_wait _ _ _ I e0). rewrite (tcount_remove e0 _ _ _ Hn). rewrite He.
+      destruct (Nat.eqb_spec e e0); [congruence|]. reflexivity.
+  - unfold upd. destruct (Nat.eqb_spec e0 e); [subst; left; reflexivity|].
+    destruct (i_active _ _ _ I _ H) as [X|X]; [inversion X; congruence|right; assumption].
+Qed.
+
+Lemma inv_task_replace : forall s e p t t', Inv MNone (Some e) s -> nth_error (tasks s) p = Some t ->
+  tev t = e -> tev t' = e ->
+  Inv MNone None (set_tasks s (waiting s) (replace_nth p t' (tasks s))).
+Proof.
+  intros s e p t t' I Hn He He'.
+  destruct (i_cur _ _ _ I _ eq_refl) as [Hlt Hph].
+  apply (inv_uncur _ e).
+  - constructor; simpl; try (destruct I; assumption); intros.
+    + apply in_replace_nth in H. destruct H as [->|H]; [rewrite He'; auto|eapply i_task; eauto].
+    + rewrite (tcount_replace e0 _ p t t' Hn) by congruence. apply (i_wait _ _ _ I).
+  - simpl. rewrite (i_wait _ _ _ I). eapply tcount_in; [eapply nth_error_In; eauto|assumption].
+Qed.
+
+Lemma inv_step_task : forall s p, Inv MNone None s -> Inv MNone None (step_task p s).
+Proof.
+  intros s p I. unfold step_task. destruct (nth_error (tasks s) p) as [t|] eqn:Hn; [|assumption].
+  destruct (i_task _ _ _ I _ (nth_error_In _ _ Hn)) as [Hlt Hph].
+  pose proof (inv_setcur _ _ I Hlt Hph) as Ic.
+  destruct (trest t) as [|kids rest] eqn:Hr.
+  - eapply inv_task_stop; eauto.
+  - set (s0 := add_log (LG (tev t) (thd t) (tk t)) s).
+    assert (I0 : Inv MNone (Some (tev t)) s0).
+    { apply inv_add_log; [assumption|intros; discriminate|].
+      intros d Hd. simpl in Hd. subst d. split; [assumption|congruence]. }
+    pose proof (inv_fire_all _ kids _ I0) as I1.
+    destruct (fire_all_tasks (Some (tev t)) kids s0 I0) as [T [W _]].
+    assert (Hn1 : nth_error (tasks (fire_all (Some (tev t)) kids s0)) p = Some t) by (rewrite T; exact Hn).
+    destruct rest as [|st rest'].
+    + eapply inv_task_stop; eauto.
+    + eapply inv_task_replace; eauto.
+Qed.
+
+Lemma inv_step : forall l s, Inv MNone None s -> Inv MNone None (step l s).
+Proof.
+  intros [|p] s I; simpl.
+  - destruct (queue s) as [|e q] eqn:Hq; [assumption|]. apply inv_dispatch; assumption.
+  - apply inv_step_task; assumption.
+Qed.
+
+Lemma inv_exec : forall ls s, Inv MNone None s -> Inv MNone None (exec ls s).
+Proof.
+  unfold exec. induction ls as [|l r IH]; simpl; intros s I; [assumption|]. apply IH. apply inv_step; assumption.
+Qed.
+
+Lemma inv_reachable : forall s, reachable s -> Inv MNone None s.
+Proof. intros s [roots [ls ->]]. apply inv_exec. apply inv_start. Qed.
+
+
+(* ------------------------------------------------------------------ the C05 theorems *)
+
+Lemma counter_inv : forall s, reachable s -> forall e, cause s e <> None ->
+  effects s e = Z.of_nat (selfc (phase s) e + cnt (childb (cause s) e) (next s)).
+Proof.
+  intros s R e H. rewrite (i_count _ _ _ (inv_reachable _ R) _ H). simpl. f_equal. lia.
+Qed.
+
+Lemma no_out_of_fuel : forall s, reachable s -> oof s = false.
+Proof. intros s R. apply (i_oof _ _ _ (inv_reachable _ R)). Qed.
+
+Lemma complete_at_most_once : forall s, reachable s -> forall e, fc_count e (log s) <= 1.
+Proof. intros s R. apply (i_fc_once _ _ _ (inv_reachable _ R)). Qed.
+
+Lemma complete_after_closure : forall s, reachable s -> forall e d,
+  In (LFC e) (log s) -> gdesc (gpar s) e d -> phase s d = PFin.
+Proof. intros s R e d. apply (closure_fin _ _ (inv_reachable _ R)). Qed.
+
+Lemma fin_is_final : forall s, reachable s -> forall d, phase s d = PFin ->
+  ~ In d (queue s) /\ (forall t, In t (tasks s) -> tev t <> d).
+Proof.
+  intros s R d H. pose proof (inv_reachable _ R) as I. split.
+  - intro X. destruct (i_q _ _ _ I _ X). congruence.
+  - intros t Ht E. destruct (i_task _ _ _ I _ Ht) as [_ P]. rewrite E in P. congruence.
+Qed.
+
+Lemma complete_log_order : forall s, reachable s -> forall l1 l2 e y d,
+  log s = l2 ++ LFC e :: l1 -> In y l2 -> hentry y d -> ~ gdesc (gpar s) e d.
+Proof. intros s R. apply (i_order _ _ _ (inv_reachable _ R)). Qed.
+
+Lemma fc_count_in : forall e l, In (LFC e) l -> 1 <= fc_count e l.
+Proof.
+  induction l as [|a r IH]; simpl; intros H; [contradiction|].
+  destruct H as [->|H]; [rewrite Nat.eqb_refl; lia|].
+  specialize (IH H). destruct a; try assumption. destruct (e0 =? e); lia.
+Qed.
+
+Lemma quiet_all_fin : forall s, Inv MNone None s -> queue s = [] -> tasks s = [] ->
+  forall e, e < next s -> phase s e = PFin.
+Proof.
+  intros s I Hq Ht e He. destruct (phase s e) eqn:P; [| |reflexivity].
+  - pose proof (i_qd _ _ _ I _ He P) as X. rewrite Hq in X. contradiction.
+  - destruct (i_active _ _ _ I _ P) as [X|X]; [discriminate|].
+    rewrite (i_wait _ _ _ I), Ht in X. simpl in X. lia.
+Qed.
+
+Lemma quiet_no_live : forall s, Inv MNone None s -> queue s = [] -> tasks s = [] ->
+  forall e, cause s e = None.
+Proof.
+  intros s I Hq Ht.
+  assert (H : forall n e, next s - e <= n -> cause s e <> None -> False).
+  { induction n as [|n IH]; intros e Hn Hl.
+    - destruct (cause s e) as [c|] eqn:E; [|congruence]. apply (i_cause_lt _ _ _ I) in E. lia.
+    - assert (Hlt : e < next s).
+      { destruct (cause s e) as [c|] eqn:E; [|congruence]. apply (i_cause_lt _ _ _ I) in E. lia. }
+      pose proof (i_count _ _ _ I _ Hl) as C. simpl in C.
+      destruct (i_pos _ _ _ I _ Hl) as [P|[P|P]]; try discriminate.
+      unfold selfc in C. rewrite (quiet_all_fin _ I Hq Ht _ Hlt) in C.
+      destruct (cnt_pos_ex (childb (cause s) e) (next s)) as [i [Hi Hc]]; [lia|].
+      unfold childb in Hc. destruct (Nat.eqb_spec i e); [discriminate|]. simpl in Hc.
+      destruct (cause s i) as [c|] eqn:E; [|discriminate]. apply Nat.eqb_eq in Hc. subst c.
+      pose proof (i_cause_lt _ _ _ I _ _ E).
+      apply (IH i); [lia|congruence]. }
+  intros e. destruct (cause s e) eqn:E; [|reflexivity]. exfalso. apply (H (next s) e); [lia|congruence].
+Qed.
+
+Lemma complete_eventually : forall s, reachable s -> queue s = [] -> tasks s = [] ->
+  forall e, e < next s -> ev_compl (spec s e) = true -> ev_canc (spec s e) = false ->
+  fc_count e (log s) = 1.
+Proof.
+  intros s R Hq Ht e He Hc Hx. pose proof (inv_reachable _ R) as I.
+  assert (T : trk s e = true).
+  { apply (i_disp_trk _ _ _ I); auto. rewrite (quiet_all_fin _ I Hq Ht _ He). discriminate. }
+  pose proof (i_fc_conv _ _ _ I _ T (quiet_no_live _ I Hq Ht e) Hx Hc) as F.
+  pose proof (fc_count_in _ _ F). pose proof (i_fc_once _ _ _ I e). lia.
+Qed.
+
+Lemma quiescent_all_finished : forall s, reachable s -> queue s = [] -> tasks s = [] ->
+  forall e, e < next s -> phase s e = PFin /\ cause s e = None.
+Proof.
+  intros s R Hq Ht e He. pose proof (inv_reachable _ R) as I. split.
+  - apply quiet_all_fin; assumption.
+  - apply quiet_no_live; assumption.
+Qed.
+
+(* the schedule of Manager.tick is one of the schedules of the transition system *)
+Lemma reachable_step : forall l s, reachable s -> reachable (step l s).
+Proof.
+  intros l s [roots [ls ->]]. exists roots, (ls ++ [l]). unfold exec. rewrite fold_left_app. reflexivity.
+Qed.
+
+Lemma reachable_step_named : forall keys s, reachable s -> reachable (step_named keys s).
+Proof.
+  induction keys as [|[l i] r IH]; simpl; intros s R; [assumption|]. apply IH.
+  destruct (find_task l i s (tasks s) 0) as [p|]; [apply (reachable_step (LTask p))|]; assumption.
+Qed.
+
+Lemma reachable_dispatch_n : forall n s, reachable s -> reachable (dispatch_n n s).
+Proof. induction n; simpl; intros; [assumption|]. apply IHn. apply (reachable_step LDisp); assumption. Qed.
+
+Lemma reachable_tick : forall keys s, reachable s -> reachable (tick keys s).
+Proof. intros. unfold tick. apply reachable_dispatch_n. apply reachable_step_named. assumption. Qed.
+
+Lemma run_reachable : forall fuel sched s, reachable s -> oof (run fuel sched s) = false ->
+  reachable (run fuel sched s).
+Proof.
+  induction fuel as [|f IH]; simpl; intros sched s R H.
+  - destruct (quiet s); [assumption|discriminate].
+  - destruct (quiet s); [assumption|]. apply IH; [apply reachable_tick|]; assumption.
+Qed.
+
+Lemma start_reachable : forall roots, reachable (start roots).
+Proof. intros. exists roots, []. reflexivity. Qed.
+
+(* as soon as the closure of e has drained, e has been released (no global quiescence needed) *)
+Lemma drained_released : forall cur s, Inv MNone cur s -> forall e,
+  (forall d, gdesc (gpar s) e d -> phase s d = PFin) ->
+  forall d, gdesc (gpar s) e d -> cause s d = None.
+Proof.
+  intros cur s I e Hfin.
+  assert (H : forall n d, next s - d <= n -> gdesc (gpar s) e d -> cause s d <> None -> False).
+  { induction n as [|n IH]; intros d Hn Hd Hl.
+    - destruct (cause s d) as [c|] eqn:E; [|congruence]. apply (i_cause_lt _ _ _ I) in E. lia.
+    - pose proof (i_count _ _ _ I _ Hl) as C. simpl in C.
+      destruct (i_pos _ _ _ I _ Hl) as [P|[P|P]]; try discriminate.
+      unfold selfc in C. rewrite (Hfin _ Hd) in C.
+      destruct (cnt_pos_ex (childb (cause s) d) (next s)) as [i [Hi Hc]]; [lia|].
+      unfold childb in Hc. destruct (Nat.eqb_spec i d); [discriminate|]. simpl in Hc.
+      destruct (cause s i) as [c|] eqn:E; [|discriminate]. apply Nat.eqb_eq in Hc. subst c.
+      pose proof (i_cause_lt _ _ _ I _ _ E).
+      apply (IH i); [lia| |congruence].
+      eapply gd_step; [|exact Hd]. apply (i_cause_shape _ _ _ I); auto. }
+  intros d Hd. destruct (cause s d) eqn:E; [|reflexivity]. exfalso. apply (H (next s) d); [lia|assumption|congruence].
+Qed.
+
+Lemma complete_when_drained : forall s, reachable s ->
+  forall e, e < next s -> ev_compl (spec s e) = true -> ev_canc (spec s e) = false ->
+  (forall d, gdesc (gpar s) e d -> phase s d = PFin) ->
+  fc_count e (log s) = 1.
+Proof.
+  intros s R e He Hc Hx Hfin. pose proof (inv_reachable _ R) as I.
+  assert (T : trk s e = true).
+  { apply (i_disp_trk _ _ _ I); auto. rewrite (Hfin e (gd_refl _ _)). discriminate. }
+  pose proof (i_fc_conv _ _ _ I _ T (drained_released _ _ I e Hfin e (gd_refl _ _)) Hx Hc) as F.
+  pose proof (fc_count_in _ _ F). pose proof (i_fc_once _ _ _ I e). lia.
 Qed.
